@@ -123,6 +123,10 @@ func (os *ObjectStream) decode() error {
 	// Parse the header: N pairs of (objNum offset)
 	// The header is plain text integers separated by whitespace
 	if err := os.parseHeader(); err != nil {
+		// os.decoded != nil means "decoded and header parsed" to the next caller:
+		// do not leave a half-initialised stream (some offsets, no error) behind
+		os.decoded = nil
+		os.offsets = nil
 		return fmt.Errorf("failed to parse object stream header: %w", err)
 	}
 
